@@ -54,6 +54,9 @@ def check(run):
         from . import C04 as _C04
         b7 = run.borrow("C04", only=r"csp|cancelled|loop-runs", why="csp rules and their $badfilter cancellation go through the common routing")
         run.guard("C15.via.C04.1.routing", cfg, lambda: _C04.rule_routing(b7, F, cfg))
+        b7c = run.borrow("C04", why="a csp rule (or csp exception) cancelled by a `$badfilter` line contributes nothing, whichever "
+                                    "of the two comes first in the list")
+        run.guard("C15.via.C04.3.badfilter-id", cfg + "/complete", lambda: _C04.rule_badfilter_set_complete(b7c, F, cfg))
         from . import C07 as _C07g
         bg = run.borrow("C07", only=r"check_all", why="every matching rule of the list is collected by check_all")
         run.guard("C15.via.C07.2.gate-shape", cfg, lambda: _C07g.rule_gate_shape(bg, F, cfg))
